@@ -160,10 +160,11 @@ pub fn scratch_dir() -> PathBuf {
 }
 
 /// Fork `workers` worker processes, statically partition scenario indices (n mod W), collect reports.
-pub fn pool(check: &dyn Check, cfg: &RunCfg, total: u64, scratch: &Path) -> (Vec<Report>, Vec<String>, u64) {
+pub fn pool(check: &dyn Check, cfg: &RunCfg, total: u64, scratch: &Path) -> (Vec<Report>, Vec<String>, u64, u64) {
     let mut harness_errors: Vec<String> = Vec::new();
     let mut reports: Vec<Report> = Vec::new();
     let mut total_execs = 0u64;
+    let mut not_run = 0u64;
     let mut readers = Vec::new();
     let mut pids = Vec::new();
     for wi in 0..cfg.workers {
@@ -171,13 +172,13 @@ pub fn pool(check: &dyn Check, cfg: &RunCfg, total: u64, scratch: &Path) -> (Vec
         unsafe {
             if libc::pipe(fds.as_mut_ptr()) != 0 {
                 harness_errors.push("pipe failed".into());
-                return (reports, harness_errors, 0);
+                return (reports, harness_errors, 0, 0);
             }
         }
         let pid = unsafe { libc::fork() };
         if pid < 0 {
             harness_errors.push("fork failed".into());
-            return (reports, harness_errors, 0);
+            return (reports, harness_errors, 0, 0);
         }
         if pid == 0 {
             unsafe {
@@ -186,6 +187,18 @@ pub fn pool(check: &dyn Check, cfg: &RunCfg, total: u64, scratch: &Path) -> (Vec
             let mut out = unsafe { std::fs::File::from_raw_fd(fds[1]) };
             let mut w = Work::new(scratch, wi);
             let mut n = wi as u64;
+            // Bounded time on a broken tree: once some worker has reported a violation AND
+            // the run has used its wall-clock allowance, nobody starts another scenario
+            // (a tree that hangs makes every affected execution cost a whole CPU budget).
+            // Never triggers on a tree without violations.
+            let started = Instant::now();
+            let allowance = std::time::Duration::from_secs(match cfg.tier {
+                Tier::Quick => 150,
+                Tier::Thorough => 1500,
+            });
+            let stop_flag = scratch.join("stop-after-violation");
+            let mut found_any = false;
+            let mut not_run = 0u64;
             while n < total {
                 if let Some(o) = cfg.only {
                     if n != o {
@@ -193,7 +206,18 @@ pub fn pool(check: &dyn Check, cfg: &RunCfg, total: u64, scratch: &Path) -> (Vec
                         continue;
                     }
                 }
+                if started.elapsed() > allowance {
+                    if found_any && !stop_flag.exists() {
+                        let _ = std::fs::write(&stop_flag, b"1");
+                    }
+                    if stop_flag.exists() {
+                        not_run += 1;
+                        n += cfg.workers as u64;
+                        continue;
+                    }
+                }
                 let rep = check.run_scenario(&mut w, cfg.seed, n, cfg.tier);
+                found_any |= !rep.violations.is_empty();
                 let mut line = serde_json::to_vec(&rep).unwrap_or_default();
                 line.push(b'\n');
                 if out.write_all(&line).is_err() {
@@ -201,7 +225,7 @@ pub fn pool(check: &dyn Check, cfg: &RunCfg, total: u64, scratch: &Path) -> (Vec
                 }
                 n += cfg.workers as u64;
             }
-            let fin = json!({"worker_done": wi, "execs": w.execs, "exec_wall_ms": w.exec_wall.as_millis() as u64, "stall_retries": w.stall_retries});
+            let fin = json!({"worker_done": wi, "execs": w.execs, "exec_wall_ms": w.exec_wall.as_millis() as u64, "stall_retries": w.stall_retries, "not_run": not_run, "hangs_full_budget": w.hangs_full_budget, "hangs_short_budget": w.hangs_short_budget});
             let _ = out.write_all(format!("{}\n", fin).as_bytes());
             drop(w);
             unsafe { libc::_exit(0) };
@@ -248,6 +272,7 @@ pub fn pool(check: &dyn Check, cfg: &RunCfg, total: u64, scratch: &Path) -> (Vec
             Ok(v) => {
                 if v.get("worker_done").is_some() {
                     total_execs += v.get("execs").and_then(|x| x.as_u64()).unwrap_or(0);
+                    not_run += v.get("not_run").and_then(|x| x.as_u64()).unwrap_or(0);
                     continue;
                 }
                 match serde_json::from_value::<Report>(v) {
@@ -265,7 +290,7 @@ pub fn pool(check: &dyn Check, cfg: &RunCfg, total: u64, scratch: &Path) -> (Vec
         unsafe { libc::waitpid(pid, &mut st, 0) };
     }
     reports.sort_by_key(|r| r.n);
-    (reports, harness_errors, total_execs)
+    (reports, harness_errors, total_execs, not_run)
 }
 
 /// Runs a check over its scenario set on `workers` forked worker processes.
@@ -280,7 +305,7 @@ pub fn run_check(check: &dyn Check, cfg: &RunCfg) -> i32 {
         return 2;
     }
     println!("guardsim: property={} tier={} VERIF_SEED={} scenarios={} workers={}", check.id(), cfg.tier.name(), cfg.seed, total, cfg.workers);
-    let (reports, mut harness_errors, total_execs) = pool(check, cfg, total, &scratch);
+    let (reports, mut harness_errors, total_execs, not_run) = pool(check, cfg, total, &scratch);
     let _ = std::fs::remove_dir_all(&scratch);
 
     let mut agg = Report::default();
@@ -360,8 +385,13 @@ pub fn run_check(check: &dyn Check, cfg: &RunCfg) -> i32 {
             weak.push(format!("{k}={got} < {min}"));
         }
     }
-    if done_scen != total {
+    if done_scen + not_run != total {
         harness_errors.push(format!("only {done_scen} of {total} scenarios reported"));
+    }
+    if not_run > 0 {
+        println!("guardsim: exploration stopped after its wall-clock allowance with violations in hand: {not_run} of {total} scenarios not run");
+        // the reach requirements are stated for a complete run
+        weak.clear();
     }
 
     if cfg.write_evidence {
@@ -392,6 +422,7 @@ pub fn run_check(check: &dyn Check, cfg: &RunCfg) -> i32 {
                 "rule": check.rule_text(),
                 "samples": if sample_vals.is_empty() { vec![json!("no sample recorded")] } else { sample_vals },
                 "scenarios": done_scen,
+                "scenarios_not_run_after_violation": not_run,
                 "commands_run": agg.counters.get("commands_run").copied().unwrap_or(0),
                 "simulated_runs_per_hour": if wall > 0.0 { (agg.execs as f64 / wall * 3600.0) as u64 } else { 0 },
                 "seeds_per_hour": if wall > 0.0 { (done_scen as f64 / wall * 3600.0) as u64 } else { 0 },
